@@ -619,7 +619,7 @@ def fsesolve(
         H = QobjEvo(H, args=args, tlist=tlist, copy=False)
         floquet_basis = FloquetBasis(H, T, precompute=tlist)
 
-    f_coeff = floquet_basis.to_floquet_basis(psi0)
+    f_coeff = floquet_basis.to_floquet_basis(psi0, tlist[0])
     result_options = {
         "store_final_state": False,
         "store_states": None,
